@@ -113,6 +113,14 @@ class WidgetProtocol(Protocol):
     has = {"automove_cursor_on_scroll": False, "set_scrollpos": "uf", "get_scrollpos": "uf", "get_cursor_coords": "uf", "get_pref_col": "uf", "move_cursor_to_coords": "uf", "mouse_event": "uf", "keypress": True, "rows": True, "pack": True, "render": True, "selectable": True}
 
 
+    def isinstance(self, ip, st, obj, cls):
+        """An opaque child of kind Widget *is* a urwid.Widget (the container proofs are "for every child honouring the
+        widget protocol"; for a non-Widget object the constructors only emit a DeprecationWarning)."""
+        if cls is urwid.Widget:
+            return True
+        raise Unsupported(f"isinstance of an opaque Widget against {cls!r}")
+
+
 PROTOCOLS["Widget"] = WidgetProtocol()
 
 
@@ -265,13 +273,17 @@ class cc_fill_attr_apply:
     modifies = ()
 
 
-@contract("urwid/canvas.py:CanvasOverlay", property=(), assumed=True, notes="canvas protocol: result has the bottom canvas's size; top canvas must fit (owned by C02)")
+@contract("urwid/canvas.py:CanvasOverlay", property=(), assumed=True,
+          notes="canvas protocol: result has the bottom canvas's size; the top canvas must lie inside the bottom one: left, top >= 0 and "
+                "right, bottom >= 0 (CompositeCanvas.overlay raises ValueError for right/bottom < 0 and, for left < 0, silently builds rows "
+                "wider than the canvas: Overlay(Text('0123456789abcdefghij'), SolidFill('.'), 'center', 'pack', 'middle', 'pack').render((12, 3)) "
+                "before /repo 61d1190 had a 16-column row in a 12-column canvas) (owned by C02)")
 class c_overlay:
     params = dict(top_c=CANVAS, bottom_c=CANVAS, left=Int, top=Int)
     result = CCANVAS
 
     def requires(a):
-        return both(a.bottom_c.ncols - a.left - a.top_c.ncols >= 0, a.bottom_c.nrows - a.top - a.top_c.nrows >= 0)
+        return both(a.left >= 0, a.top >= 0, a.bottom_c.ncols - a.left - a.top_c.ncols >= 0, a.bottom_c.nrows - a.top - a.top_c.nrows >= 0)
 
     def ensures(a, r):
         yield "size", both(r.ncols == a.bottom_c.ncols, r.nrows == a.bottom_c.nrows)
@@ -444,4 +456,11 @@ class w_invalidate:
 @contract("urwid/canvas.py:CompositeCanvas.set_depends", property=(), assumed=True, notes="canvas protocol: cache dependencies only (C06)")
 class cc_set_depends:
     self_shape = CCANVAS
+    modifies = ()
+
+
+@contract("urwid/widget/widget.py:Widget.__init__", property=(), assumed=True,
+          notes="stores `self.logger = logging.getLogger(<class path>)` and nothing else; logger calls are dropped (DESIGN 2.1) and the attribute is never read by verified code")
+class widget_init:
+    self_shape = Obj(urwid.Widget, {})
     modifies = ()
